@@ -40,7 +40,7 @@ def gen_script(rng, case, maxops=24, p_op=0.5):
         edited = False    # REJECT is only scripted before the action edits the input stream
         while rng.random() < p_op and k < 4 and len(ops) < maxops:
             k += 1
-            choices = ["B", "T", "A"]
+            choices = ["B", "T", "A", "N"]
             if not did_more: choices += ["I", "U"]   # yymore() + input()/unput() in one action: undocumented
             # yyless()/yymore()/REJECT are only scripted before yyunput()/yyinput() in the
             # same action: the manual defines them on the current token, and the
@@ -62,6 +62,7 @@ def gen_script(rng, case, maxops=24, p_op=0.5):
             elif o == "O": ops.append(("O", 0))
             elif o == "Q": ops.append(("Q", 0))
             elif o == "A": ops.append(("A", rng.randint(0, 1)))
+            elif o == "N": ops.append(("N", rng.choice((0, 1, 3, 40))))     # the user sets the line number
             elif o == "R": ops.append(("R", 0)); break
             elif o == "T": ops.append(("T", 0)); break
         if not ops or ops[-1][0] not in ("R", "T"):
@@ -205,7 +206,7 @@ class BufScript:
             elif r < 0.78: out.append(("d", self.anybuf()))
             elif r < 0.84: out.append(("Z", self.rng.randrange(self.nf)))
             elif r < 0.90: out.append(("r", self.rng.randrange(self.nf)))
-            else: out.append((self.rng.choice("BPOQ"), self.rng.randrange(self.nsc)))
+            else: out.append((self.rng.choice("BPOQN"), self.rng.randrange(self.nsc)))
         return out
 
     def action_script(self, nact=8, p=0.5):
